@@ -36,6 +36,22 @@ theorem push_cases (cfg : Cfg) (hper : 0 < cfg.perAcc) (p : Pool) (tx : Tx) (now
           exact ⟨acc', rfl, trivial, by omega⟩
   · left; simp [hc]
 
+/-- "hash `id` is not pooled" is preserved by everything except a push of that hash -/
+theorem absent_closed (cfg : Cfg) (hper : 0 < cfg.perAcc) (id : Nat) :
+    Closed cfg (fun t => t.id ≠ id) (fun p => id ∉ ids p) where
+  push := by
+    intro p tx now hne h
+    rcases push_cases cfg hper p tx now with heq | ⟨acc', heq, _, _⟩
+    · rw [heq]; exact h
+    · rw [heq]
+      simp only [ids, List.map_append, List.map_cons, List.map_nil, List.mem_append, List.mem_singleton]
+      intro hm
+      rcases hm with hm | hm
+      · exact h hm
+      · exact hne hm.symm
+  remove := fun p i h hm => h ((ids_remove_sub p i).subset hm)
+  hdr := fun _ _ _ h => h
+
 theorem sub_shPush (cfg : Cfg) (sh : List Tx) (tx : Tx) : ∀ t ∈ sh, t ∈ shPush cfg sh tx := by
   intro t ht
   unfold shPush
